@@ -19,8 +19,8 @@ Definition insert_array (items : list val) (idx : Z) (v : val) : option (list va
   let n := Z.of_nat (length items) in
   if idx >=? n then Some (items ++ [v])
   else let idx' := if idx <? 0 then n + idx else idx in
-       if idx' <? 0 then None
-       else Some (firstn (Z.to_nat idx') items ++ [v] ++ skipn (Z.to_nat idx') items).
+       let idx'' := if idx' <? 0 then 0 else idx' in          (* a position before the first item: the front *)
+       Some (firstn (Z.to_nat idx'') items ++ [v] ++ skipn (Z.to_nat idx'') items).
 
 Definition is_num (v : val) : bool := match v with VNum _ | VNumberType => true | _ => false end.
 Definition num_bits (v : val) : Z := match v with VNum b => b | _ => 0 end.
@@ -79,24 +79,64 @@ Fixpoint find_eq (fuel : nat) (st : state) (items : list val) (v : val) (i : Z) 
     end
   end.
 
+(* value.containsElement / detachFrom (repaired inserting members): an item that is, or holds, the
+   container it is put into is stored as a copy, so that no list or dictionary ever contains itself *)
+Definition same_container (a b : val) : bool :=
+  match a, b with
+  | VList x, VList y => (x =? y)%nat
+  | VDict x, VDict y => (x =? y)%nat
+  | _, _ => false
+  end.
+
+Fixpoint reaches (fuel : nat) (h : list cell) (v target : val) : bool :=
+  match fuel with
+  | O => false
+  | S k =>
+    if same_container v target then true else
+    match v with
+    | VList l => match nth_error h l with
+                 | Some (CList items) => existsb (fun x => reaches k h x target) items
+                 | _ => false
+                 end
+    | VDict l => match nth_error h l with
+                 | Some (CDict kvs) => existsb (fun kv => reaches k h (snd kv) target) kvs
+                 | _ => false
+                 end
+    | _ => false
+    end
+  end.
+
+Definition detach (fuel : nat) (st : state) (container item : val) : res val :=
+  if reaches fuel (heap st) item container then dup_res fuel st item else Ok item st.
+
+Fixpoint detach_all (fuel : nat) (st : state) (container : val) (items : list val) : res (list val) :=
+  match items with
+  | [] => Ok [] st
+  | x :: tl =>
+    let! (x', s1) := detach fuel st container x in
+    let! (tl', s2) := detach_all fuel s1 container tl in
+    Ok (x' :: tl') s2
+  end.
+
 (* Array.ExecMethod *)
 Definition list_method (fuel : nat) (st : state) (l : nat) (items : list val) (m : name) (args : list val) : res val :=
   if m =? M_APPEND then
     match args with
-    | [v] => Ok (VList l) (hset st l (CList (items ++ [v])))
+    | [v] => let! (v', s1) := detach fuel st (VList l) v in Ok (VList l) (hset s1 l (CList (items ++ [v'])))
     | _ => Er (ERun E_EXACT) st
     end
   else if m =? M_PREPEND then
     match args with
-    | [v] => Ok (VList l) (hset st l (CList (v :: items)))
+    | [v] => let! (v', s1) := detach fuel st (VList l) v in Ok (VList l) (hset s1 l (CList (v' :: items)))
     | _ => Er (ERun E_EXACT) st
     end
   else if (m =? M_INSERT) || (m =? M_INSERT2) then
     match args with
     | [v; i] =>
       if negb (is_num i) then Er (ERun E_PARAMTYPE) st else
-      match insert_array items (to_int (num_bits i)) v with
-      | Some items' => Ok (VList l) (hset st l (CList items'))
+      let! (v', s1) := detach fuel st (VList l) v in
+      match insert_array items (to_int (num_bits i)) v' with
+      | Some items' => Ok (VList l) (hset s1 l (CList items'))
       | None => Crash 1
       end
     | _ => Er (ERun E_EXACT) st
@@ -122,9 +162,11 @@ Definition list_method (fuel : nat) (st : state) (l : nat) (items : list val) (m
         | _ => None
         end in
     if negb (forallb (fun a => match a with VList _ => true | _ => false end) args) then Er (ERun E_PARAMTYPE) st else
-    match collect args items with
-    | Some result =>
-      let st1 := hset st l (CList result) in
+    match collect args [] with
+    | Some extra =>
+      let! (extra', s0) := detach_all fuel st (VList l) extra in
+      let result := items ++ extra' in
+      let st1 := hset s0 l (CList result) in
       let (l', st2) := alloc st1 (CList result) in Ok (VList l') st2
     | None => Crash UNMODELLED
     end
@@ -156,10 +198,10 @@ Definition list_method (fuel : nat) (st : state) (l : nat) (items : list val) (m
   else Er (ERun E_NOMETHOD) st.
 
 (* HashMap.ExecMethod *)
-Definition dict_method (st : state) (l : nat) (kvs : list (str * val)) (m : name) (args : list val) : res val :=
+Definition dict_method (fuel : nat) (st : state) (l : nat) (kvs : list (str * val)) (m : name) (args : list val) : res val :=
   if m =? M_SET then
     match args with
-    | [VStr key; v] => Ok v (hset st l (CDict (set_key key v kvs)))
+    | [VStr key; v] => let! (v', s1) := detach fuel st (VDict l) v in Ok v (hset s1 l (CDict (set_key key v' kvs)))
     | [_; _] => Er (ERun E_PARAMTYPE) st
     | _ => Er (ERun E_EXACT) st
     end
@@ -820,7 +862,7 @@ Section Stmt.
     | VDict l =>
       let s2 := push_frame st 2 (Some root) in
       match hget s2 l with
-      | Some (CDict kvs) => let! (v, s3) := dict_method s2 l kvs m args in Ok v (pop_frame s3)
+      | Some (CDict kvs) => let! (v, s3) := dict_method k s2 l kvs m args in Ok v (pop_frame s3)
       | _ => Crash UNMODELLED
       end
     | VNull | VBool _ | VFunc _ | VClass _ | VExc _ | VNative _ => Er (ERun E_NOMETHOD) (push_frame st 2 (Some root))
